@@ -195,3 +195,21 @@ func (k *Keyper) DKGResult(ctx context.Context, eon int64) (Result, error) {
 	}
 	return r, nil
 }
+
+// PhaseAt is the harness's own statement of the DKG phase schedule (config documentation: four
+// phases of equal length, counted from the block in which the eon started): blocks
+// [h0, h0+l) are the dealing phase, [h0+l, h0+2l) accusing, [h0+2l, h0+3l) apologizing, later
+// blocks finalized. It deliberately does not call the repository's dkgphase package.
+func PhaseAt(height, h0, l int64) puredkg.Phase {
+	switch {
+	case height < h0:
+		return puredkg.Off
+	case height-h0 < l:
+		return puredkg.Dealing
+	case height-h0 < 2*l:
+		return puredkg.Accusing
+	case height-h0 < 3*l:
+		return puredkg.Apologizing
+	}
+	return puredkg.Finalized
+}
